@@ -5537,7 +5537,12 @@ impl PeerConnectionInner {
     }
 
     fn close_with_reason(&self, reason: DisconnectReason) {
-        if *self.peer_state.borrow() == PeerConnectionState::Closed {
+        // Only this function closes signaling, so it is the marker for "already
+        // torn down". The peer state is not: it is also set to Closed by the
+        // state task when the ICE transport is closed underneath us, and a
+        // close()/Drop after that must still stop SCTP/DTLS/tracks and close
+        // signaling instead of returning early.
+        if *self.signaling_state.borrow() == SignalingState::Closed {
             return;
         }
 
